@@ -122,7 +122,7 @@ def impl_default(d, case):
 
 def run(ctx):
     ctx.rule = ("generated G1 (plain Einsums), G2 (shape-partitioned), G3 (occupancy-partitioned; flatten variants only in the text differential of rank-order), "
-                "G5 (cascades); each compared omitted-vs-explicit for every absent mapping section; non-trivial = Einsum with >= 2 ranks; distinct = distinct specification")
+                "G5 (cascades), G4n/G4q/G4p (affine accesses: strides, dilations, two reduction variables, negative coefficients; unpartitioned and shape-partitioned with a follower); each compared omitted-vs-explicit for every absent mapping section; non-trivial = Einsum with >= 2 ranks; distinct = distinct specification")
     ctx.trusted = ["Lean kernel; Props/C19.default_order", "the harness's own default (c19.default_loop_order) is written from the property statement",
                    "model (DefaultOrder.implOrder) = LoopOrder.__default_loop_order is sampled; flatten() tuples are outside the Lean model (text differential only)"]
     rng = random.Random(ctx.seed * 104729 + 19)
@@ -138,6 +138,11 @@ def run(ctx):
         cases.append(gens.g3(rng))
     for _ in range(20 * k):
         cases.append(gens.g5(rng))
+    # affine accesses (index variables introduced inside an index expression, with and without coefficients), loop order omitted
+    for i in range(40 * k):
+        c = [gens.g4n, gens.g4q, gens.g4p][i % 3](rng)
+        c["mapping"].pop("loop-order", None)
+        cases.append(c)
     # multi-term Einsums whose terms introduce the contracted ranks in different orders
     for _ in range(30 * k):
         c = gens.g1(rng, allow_take=False)
